@@ -418,13 +418,13 @@ func httpCase(res *vkit.Result, p *peer, c Case) {
 	defer vkit.RemoveMem(path)
 	gun := map[string]any{"type": c.Gun, "target": p.rt.Addr, "response-header-timeout": headerTimeout(c),
 		"dial": map[string]any{"timeout": "10s"}, "disable-keep-alives": c.NoKeep}
-	samples, rr, err := runPool(poolConf(map[string]any{"type": "uri", "file": path, "passes": 1}, gun, c.Instances), 60*time.Second)
+	samples, rr, err := runPool(poolConf(map[string]any{"type": "uri", "file": path, "passes": 1}, gun, c.Instances), 240*time.Second)
 	if err != nil {
 		res.Inconclusive(true, "pool config rejected: %v", err)
 		return
 	}
 	if rr.Hang || rr.WaitHang {
-		res.Violate(key(c, "hang"), "the run did not end within 60 s:\n"+rr.Stacks, c)
+		res.Violate(key(c, "hang"), "the run did not end within 240 s:\n"+rr.Stacks, c)
 		return
 	}
 	if rr.Err != nil {
@@ -525,13 +525,13 @@ scenarios:
 	_ = vkit.WriteMemAt(sp, []byte(yaml))
 	defer vkit.RemoveMem(sp)
 	gun := map[string]any{"type": c.Gun, "target": p.rt.Addr, "response-header-timeout": headerTimeout(c), "dial": map[string]any{"timeout": "10s"}}
-	samples, rr, err := runPool(poolConf(map[string]any{"type": "http/scenario", "file": sp, "limit": shots}, gun, c.Instances), 60*time.Second)
+	samples, rr, err := runPool(poolConf(map[string]any{"type": "http/scenario", "file": sp, "limit": shots}, gun, c.Instances), 240*time.Second)
 	if err != nil {
 		res.Inconclusive(true, "scenario pool rejected: %v", err)
 		return
 	}
 	if rr.Hang || rr.WaitHang {
-		res.Violate(key(c, "hang"), "the run did not end within 60 s:\n"+rr.Stacks, c)
+		res.Violate(key(c, "hang"), "the run did not end within 240 s:\n"+rr.Stacks, c)
 		return
 	}
 	if rr.Err != nil {
@@ -851,7 +851,7 @@ func closedPortCase(res *vkit.Result, c Case) {
 	path := vkit.WriteMem([]byte("/a bad\n/b bad\n/c bad\n/d bad\n"))
 	defer vkit.RemoveMem(path)
 	gun := map[string]any{"type": c.Gun, "target": vkit.ClosedPort(), "dial": map[string]any{"timeout": "1s"}}
-	samples, rr, err := runPool(poolConf(map[string]any{"type": "uri", "file": path, "passes": 2}, gun, c.Instances), 60*time.Second)
+	samples, rr, err := runPool(poolConf(map[string]any{"type": "uri", "file": path, "passes": 2}, gun, c.Instances), 240*time.Second)
 	if err != nil {
 		res.Inconclusive(true, "pool rejected: %v", err)
 		return
